@@ -5,6 +5,7 @@
 (* each cursor's (base, offset, len)) must equal the specification's post-state.                              *)
 EXTENDS ByteBuf, TraceCommon
 
+CONSTANT EnabledDeviations   \* {} in Trace.cfg (strict); names of Dev_ actions of status:"known" findings in TraceLenient.cfg
 VARIABLES l
 Ev == TraceLog[l]
 
@@ -100,10 +101,26 @@ TFindExact == /\ Ev.e = "FindExact" /\ FindExact(Ev.c, Ev.f, Ev.d, Ok, Ev.rv)
               /\ Observed(Ev.s)
 TParseU64 == Ev.e = "ParseU64" /\ ParseU64(Ev.c, IF Ev.hex = 1 THEN 16 ELSE 10, Ok, Ev.val) /\ Observed(Ev.s)
 
+(* Deviation F8 (known_findings.txt; repaired in /repo by 410b286, so it is enabled by no configuration in use): the    *)
+(* nospec advance, and the reads built on it, on a cursor of length exactly SIZE_MAX>>1 reported failure AND overwrote   *)
+(* the caller's cursor with {NULL, 0}.                                                                                   *)
+Dev_NospecHalfClobber ==
+    /\ "NospecHalfClobber" \in EnabledDeviations
+    /\ Ev.e \in {"CurAdvance", "Read", "ReadU"}
+    /\ curs[Ev.c].base = ONEB /\ curs[Ev.c].len = HALF
+    /\ IF Ev.e = "CurAdvance"
+       THEN /\ Ev.nospec = 1 /\ Ev.n <= HALF /\ Ev.rv = NullCur
+            /\ curs' = SetCur([curs EXCEPT ![Ev.c] = NullCur], Ev.d, NullCur)
+       ELSE /\ Ev.ok = 0 /\ (Ev.e = "Read" => (Ev.n > 0 /\ Ev.n <= HALF))
+            /\ curs' = [curs EXCEPT ![Ev.c] = NullCur]
+    /\ UNCHANGED <<bufs, src>>
+    /\ PrintT(<<"FIRED", "NospecHalfClobber", l>>)
+    /\ Observed(Ev.s)
+
 TEnd == Ev.e = "End" /\ Ev.live = 0 /\ UNCHANGED bbvars
 
 TNext == /\ l <= TraceLen /\ l' = l + 1
-         /\ \/ TReset \/ TEnd
+         /\ \/ TReset \/ TEnd \/ Dev_NospecHalfClobber
             \/ TInit \/ TInitCopy \/ TInitCopyFromCursor \/ TInitCache
             \/ TAppend \/ TAppendWithLookup \/ TAppendAndUpdate \/ TCat
             \/ TAppendDynamic \/ TAppendByteDynamic \/ TAppendNullTerminator \/ TReserve
